@@ -38,12 +38,12 @@ theorem inv_init : Inv init := by
   constructor <;> simp [init, CPc.isRunning, Before]
 
 macro "sstep_split" hs:ident : tactic =>
-  `(tactic| (simp only [step] at $hs:ident; (repeat' split at $hs:ident) <;> (try cases $hs:ident)))
+  `(tactic| (simp only [step, Bool.false_eq_true, if_false] at $hs:ident; (repeat' split at $hs:ident) <;> (try cases $hs:ident)))
 
 macro "sinv_auto" : tactic =>
   `(tactic| (constructor <;> simp only [Before, sub2_snoc, List.mem_append, List.mem_singleton] <;> (try assumption) <;> (try grind [CPc.isRunning])))
 
-theorem inv_track (s s' : St) (i : Nat) (h : Inv s) (hs : step s (.track i) = some s') : Inv s' := by
+theorem inv_track (s s' : St) (i : Nat) (h : Inv s) (hs : step false s (.track i) = some s') : Inv s' := by
   obtain ⟨h1,h2,h3,h4,h5,h6,h7,h8,h9,h10,h11,h12,h13,h14⟩ := h
   have sm := @sub2_mem Ev s.tr
   have me := @List.mem_erase_of_ne Nat _ _
@@ -51,7 +51,7 @@ theorem inv_track (s s' : St) (i : Nat) (h : Inv s) (hs : step s (.track i) = so
   sstep_split hs
   all_goals sinv_auto
 
-theorem inv_closeCall (s s' : St) (k : Nat) (h : Inv s) (hs : step s (.closeCall k) = some s') : Inv s' := by
+theorem inv_closeCall (s s' : St) (k : Nat) (h : Inv s) (hs : step false s (.closeCall k) = some s') : Inv s' := by
   obtain ⟨h1,h2,h3,h4,h5,h6,h7,h8,h9,h10,h11,h12,h13,h14⟩ := h
   have sm := @sub2_mem Ev s.tr
   have me := @List.mem_erase_of_ne Nat _ _
@@ -59,7 +59,7 @@ theorem inv_closeCall (s s' : St) (k : Nat) (h : Inv s) (hs : step s (.closeCall
   sstep_split hs
   all_goals sinv_auto
 
-theorem inv_closeEnter (s s' : St) (k : Nat) (h : Inv s) (hs : step s (.closeEnter k) = some s') : Inv s' := by
+theorem inv_closeEnter (s s' : St) (k : Nat) (h : Inv s) (hs : step false s (.closeEnter k) = some s') : Inv s' := by
   obtain ⟨h1,h2,h3,h4,h5,h6,h7,h8,h9,h10,h11,h12,h13,h14⟩ := h
   have sm := @sub2_mem Ev s.tr
   have me := @List.mem_erase_of_ne Nat _ _
@@ -67,7 +67,7 @@ theorem inv_closeEnter (s s' : St) (k : Nat) (h : Inv s) (hs : step s (.closeEnt
   sstep_split hs
   all_goals sinv_auto
 
-theorem inv_closeStep (s s' : St) (k i : Nat) (h : Inv s) (hs : step s (.closeStep k i) = some s') : Inv s' := by
+theorem inv_closeStep (s s' : St) (k i : Nat) (h : Inv s) (hs : step false s (.closeStep k i) = some s') : Inv s' := by
   obtain ⟨h1,h2,h3,h4,h5,h6,h7,h8,h9,h10,h11,h12,h13,h14⟩ := h
   have sm := @sub2_mem Ev s.tr
   have me := @List.mem_erase_of_ne Nat _ _
@@ -75,7 +75,7 @@ theorem inv_closeStep (s s' : St) (k i : Nat) (h : Inv s) (hs : step s (.closeSt
   sstep_split hs
   all_goals sinv_auto
 
-theorem inv_closeExit (s s' : St) (k : Nat) (h : Inv s) (hs : step s (.closeExit k) = some s') : Inv s' := by
+theorem inv_closeExit (s s' : St) (k : Nat) (h : Inv s) (hs : step false s (.closeExit k) = some s') : Inv s' := by
   obtain ⟨h1,h2,h3,h4,h5,h6,h7,h8,h9,h10,h11,h12,h13,h14⟩ := h
   have sm := @sub2_mem Ev s.tr
   have me := @List.mem_erase_of_ne Nat _ _
@@ -83,7 +83,7 @@ theorem inv_closeExit (s s' : St) (k : Nat) (h : Inv s) (hs : step s (.closeExit
   sstep_split hs
   all_goals sinv_auto
 
-theorem inv_wrapCall (s s' : St) (i : Nat) (h : Inv s) (hs : step s (.wrapCall i) = some s') : Inv s' := by
+theorem inv_wrapCall (s s' : St) (i : Nat) (h : Inv s) (hs : step false s (.wrapCall i) = some s') : Inv s' := by
   obtain ⟨h1,h2,h3,h4,h5,h6,h7,h8,h9,h10,h11,h12,h13,h14⟩ := h
   have sm := @sub2_mem Ev s.tr
   have me := @List.mem_erase_of_ne Nat _ _
@@ -91,7 +91,7 @@ theorem inv_wrapCall (s s' : St) (i : Nat) (h : Inv s) (hs : step s (.wrapCall i
   sstep_split hs
   all_goals sinv_auto
 
-theorem inv_wrapInner (s s' : St) (i : Nat) (h : Inv s) (hs : step s (.wrapInner i) = some s') : Inv s' := by
+theorem inv_wrapInner (s s' : St) (i : Nat) (h : Inv s) (hs : step false s (.wrapInner i) = some s') : Inv s' := by
   obtain ⟨h1,h2,h3,h4,h5,h6,h7,h8,h9,h10,h11,h12,h13,h14⟩ := h
   have sm := @sub2_mem Ev s.tr
   have me := @List.mem_erase_of_ne Nat _ _
@@ -99,7 +99,7 @@ theorem inv_wrapInner (s s' : St) (i : Nat) (h : Inv s) (hs : step s (.wrapInner
   sstep_split hs
   all_goals sinv_auto
 
-theorem inv_wrapDelete (s s' : St) (i : Nat) (h : Inv s) (hs : step s (.wrapDelete i) = some s') : Inv s' := by
+theorem inv_wrapDelete (s s' : St) (i : Nat) (h : Inv s) (hs : step false s (.wrapDelete i) = some s') : Inv s' := by
   obtain ⟨h1,h2,h3,h4,h5,h6,h7,h8,h9,h10,h11,h12,h13,h14⟩ := h
   have sm := @sub2_mem Ev s.tr
   have me := @List.mem_erase_of_ne Nat _ _
@@ -107,7 +107,7 @@ theorem inv_wrapDelete (s s' : St) (i : Nat) (h : Inv s) (hs : step s (.wrapDele
   sstep_split hs
   all_goals sinv_auto
 
-theorem inv_count (s s' : St) (h : Inv s) (hs : step s (.count) = some s') : Inv s' := by
+theorem inv_count (s s' : St) (h : Inv s) (hs : step false s (.count) = some s') : Inv s' := by
   obtain ⟨h1,h2,h3,h4,h5,h6,h7,h8,h9,h10,h11,h12,h13,h14⟩ := h
   have sm := @sub2_mem Ev s.tr
   have me := @List.mem_erase_of_ne Nat _ _
@@ -115,7 +115,7 @@ theorem inv_count (s s' : St) (h : Inv s) (hs : step s (.count) = some s') : Inv
   sstep_split hs
   all_goals sinv_auto
 
-theorem inv_step (s s' : St) (a : Act) (h : Inv s) (hs : step s a = some s') : Inv s' := by
+theorem inv_step (s s' : St) (a : Act) (h : Inv s) (hs : step false s a = some s') : Inv s' := by
   cases a with
   | track i => exact inv_track s s' i h hs
   | closeCall k => exact inv_closeCall s s' k h hs
